@@ -179,6 +179,6 @@ def run(ctx):
                                 'windowless': st.sampled_from([False, False, False, True]), 'q': st.sampled_from([0, 3]),
                                 'items': items(['PERF_THD_Data', 'PERF_STK_UHdr', 'PERF_STK_UData', 'PERF_STK_UData'], 7,
                                                st.integers(0, 13))})
-    ctx.run_given('vmfault', vm, prop_vmfault, ctx.n(600, 3000))
-    ctx.run_given('launch', la, prop_launch, ctx.n(500, 2500))
-    ctx.run_given('sample', sa, prop_sample, ctx.n(900, 4000))
+    ctx.run_given('vmfault', vm, prop_vmfault, ctx.n(600, 9000))
+    ctx.run_given('launch', la, prop_launch, ctx.n(500, 7500))
+    ctx.run_given('sample', sa, prop_sample, ctx.n(900, 12000))
